@@ -108,6 +108,19 @@ class Engine:
                 st.assume(g)
                 yield v, st
 
+    def tr(self, v, state):
+        """truthiness, looking through container references"""
+        if isinstance(v, VLoc):
+            v = self.builtins["__freeze__"](self, v, state)
+            if isinstance(v, VEmptyDict):
+                return z3.BoolVal(False)
+            if isinstance(v, VLoc):
+                c = state.glob(v.key) if isinstance(v.key, str) else state.locs[v.key]
+                if c.kind == "set":
+                    return c.dom != z3.K(c.dom.sort().domain(), z3.BoolVal(False))
+                raise Unsupported("truth of container")
+        return truth(v)
+
     # ----------------------------------------------------------------------------------
     # name resolution
     def module_of(self, state):
@@ -245,7 +258,7 @@ class Engine:
             if isinstance(v, Exc):
                 yield "raise", v, st
                 continue
-            c = truth(v)
+            c = self.tr(v, st)
             for b, s2 in self.branch(st, c):
                 if b:
                     yield "next", None, s2
@@ -257,7 +270,7 @@ class Engine:
             if isinstance(v, Exc):
                 yield "raise", v, st
                 continue
-            for b, s2 in self.branch(st, truth(v)):
+            for b, s2 in self.branch(st, self.tr(v, st)):
                 yield from self.exec_block(node.body if b else node.orelse, s2)
 
     def s_Assign(self, node, state):
@@ -530,7 +543,7 @@ class Engine:
             if isinstance(c, Exc):
                 yield c, st
                 continue
-            cz = simp(truth(c))
+            cz = simp(self.tr(c, st))
             cb = is_concrete_bool(cz)
             if cb is not None:
                 yield from self.eval(node.body if cb else node.orelse, st)
@@ -556,7 +569,7 @@ class Engine:
                 if isinstance(v, Exc) or i == len(node.values) - 1:
                     yield v, s1
                     continue
-                t = simp(truth(v))
+                t = simp(self.tr(v, s1))
                 cb = is_concrete_bool(t)
                 if cb is not None:
                     if cb == is_or:
@@ -572,7 +585,7 @@ class Engine:
                             yield (merge(t, v, rest) if is_or else merge(t, rest, v)), s1
                             continue
                         if isinstance(v, VBool) or True:
-                            tv, tr = t, truth(rest)
+                            tv, tr = t, self.tr(rest, s1)
                             if isinstance(rest, VBool) or self.pure:
                                 yield VBool(z3.Or(tv, tr) if is_or else z3.And(tv, tr)), s1
                                 continue
@@ -594,7 +607,7 @@ class Engine:
                 continue
             op = type(node.op).__name__
             if op == "Not":
-                yield VBool(z3.Not(truth(v))), st
+                yield VBool(z3.Not(self.tr(v, st))), st
             elif op == "USub":
                 if isinstance(v, VInt):
                     yield VInt(-v.z), st
@@ -671,7 +684,7 @@ class Engine:
                     if isinstance(r, Exc) or len(ops) == 1:
                         yield r, s2
                         continue
-                    t = simp(truth(r))
+                    t = simp(self.tr(r, s2))
                     cb = is_concrete_bool(t)
                     if cb is False:
                         yield r, s2
@@ -709,7 +722,8 @@ class Engine:
                     continue
                 x, d = vs
                 if isinstance(x, VInt) and isinstance(d, VInt):
-                    ndiv = x.z % d.z != 0
+                    from .ops import _pymod
+                    ndiv = _pymod(x.z, d.z) != 0
                     zero = d.z == 0
                 elif is_numeric(x) and is_numeric(d):
                     q = to_num(x).val / to_num(d).val
